@@ -170,11 +170,11 @@ fn check_doc(d: &RDoc, how: usize) -> (Vec<Viol>, bool) {
 
 pub fn run(run: &mut Run) -> Finish {
     let tier = run.ctx.tier;
-    let max_lines = tier.pick(4, 6);
+    let max_lines = tier.pick(5, 6);
     let nmenu = LINE_MENU.len() as u64;
     let nseq = n_seq_upto(nmenu, max_lines);
     // x line ending {\n, \r\n} x final newline {no, yes}
-    run.par_slice("texts: every sequence of <= 4/6 lines over an 11-line menu x {\\n, \\r\\n} x final newline {no, yes}", 1, nseq * 4, |idx, l| {
+    run.par_slice("texts: every sequence of <= 5/6 lines over an 11-line menu x {\\n, \\r\\n} x final newline {no, yes}", 1, nseq * 4, |idx, l| {
         let k = idx & ((1 << 40) - 1);
         let lines = seq_upto_unrank(nmenu, max_lines, k / 4);
         let nl = if k % 2 == 0 { "\n" } else { "\r\n" };
@@ -191,9 +191,9 @@ pub fn run(run: &mut Run) -> Finish {
             l.sample(idx, json!({"text": text, "expected": rlocate(&text)}));
         }
     });
-    let kmax = tier.pick(3, 5);
+    let kmax = tier.pick(4, 5);
     let nt = t_count(kmax);
-    run.par_slice("maps T (<= 3/5 tokens): data URL round trip, embedded discovery, detection", 2, nt * 3, |idx, l| {
+    run.par_slice("maps T (<= 4/5 tokens): data URL round trip, embedded discovery, detection", 2, nt * 3, |idx, l| {
         let k = idx & ((1 << 40) - 1);
         let m = t_map(kmax, k / 3);
         let (v, ran) = check_map(&m, (k % 3) as usize);
